@@ -141,6 +141,42 @@ class FuncFacts:
             return True
         return False
 
+    # external callables that return their positional arguments as a tuple, in order (frozen
+    # table: dask.compute / dask.base.compute / dask.graph_manipulation.wait_on / persist)
+    TUPLE_PRESERVING = {
+        "dask.compute", "dask.base.compute", "dask.graph_manipulation.wait_on", "dask.persist", "dask.base.persist",
+    }
+
+    def tuple_preserving(self, call: ast.Call) -> bool:
+        f = call.func
+        d = dotted(f)
+        mod = self.fn.module
+        if d is not None:
+            root = d.split(".")[0]
+            if root in mod.imports and root != "self":
+                src, attr = mod.imports[root]
+                full = (f"{src}.{attr}" if attr else src) + d[len(root):]
+                if full in self.TUPLE_PRESERVING:
+                    return True
+        # self.m(a, b, c) where every return of m is the tuple of its parameters in order
+        if isinstance(f, ast.Attribute) and isinstance(f.value, ast.Name) and f.value.id == "self" and self.fn.cls is not None:
+            m = self.fn.cls.resolve(f.attr)
+            if m is not None:
+                params = [p for p in m.positional_params if p != "self"]
+                rets = [n for n in walk_no_nested(m.node) if isinstance(n, ast.Return)]
+                if not rets:
+                    return False
+                mf = FuncFacts.of(m)
+                for r in rets:
+                    if not (isinstance(r.value, ast.Tuple) and len(r.value.elts) == len(params)):
+                        return False
+                    for i, e in enumerate(r.value.elts):
+                        for p in mf.paths(e, spine_only=True):
+                            if not (p.atom.kind == "param" and p.atom.name == params[i] and not [o for o in p.ops if o.kind != "unpack"]):
+                                return False
+                return True
+        return False
+
     # ---------------------------------------------------------------- paths
     def paths(self, expr: ast.expr, at: int | None = None, spine_only: bool = False) -> list[Path]:
         if at is None:
@@ -176,8 +212,13 @@ class FuncFacts:
             if d.kind == "param":
                 out.append(Path(Atom("param", var, e, d), (), d.node))
             elif d.kind in ("assign", "unpack", "walrus"):
-                ps = self._paths(d.value, d.node, st2, {}, spine)
                 val = d.value
+                if d.index and isinstance(val, ast.Call) and self.tuple_preserving(val) and len(d.index) == 1 \
+                        and d.index[0] < len(val.args) and not any(isinstance(a, ast.Starred) for a in val.args):
+                    # U, s, VT = dask.compute(U, s, VT): element i of the result is argument i
+                    out += self._paths(val.args[d.index[0]], d.node, st2, {}, spine)
+                    continue
+                ps = self._paths(d.value, d.node, st2, {}, spine)
                 for i in d.index:
                     # tuple unpacking of a tuple display: follow the element directly
                     if isinstance(val, (ast.Tuple, ast.List)) and i < len(val.elts):
